@@ -84,7 +84,7 @@ PROPS = {
         "3^k/len, at 1/(2 len), 0, negative, denormal; 1..16 workers) re-scored",
    assumptions=["IEEE-754: z -> math.Pow(3,z)/len is monotone (checked exhaustively per length at run time)", "iota.go curl/bct computes the lanes' Curl-P-81 hashes (external)"],
    trusted_base=["float64 semantics are outside the model (abstract monotone score in the theorems)"]),
- "C12": P("C12", tie="Iota.Tie.Pow",
+ "C12": P("C12", tie="Iota.Tie.Pow", e2e="Iota.Tie.E2E.PowV2",
    rule="ops: pow2.toint, pow2.suff (sufficientTrailingZeros and targetHash incl. the overflow guard), pow2.check (hook-exported checkStateTrits on constructed planes: lanes whose hash integer is exactly the target hash, "
         "one above, one below, the largest with s / s-1 trailing zeros, random with >= s-1 zeros, random; at lane 0, 63, random; all-fail and all-candidate planes; sprinkled invalid (0,0) encodings), pow2.statetoint, pow.score, "
         "pow.mined v2 (nonces returned by Mine with 1..16 workers re-scored by the Lean pipeline: the expected reply is ok=true; also series of Mine calls on ONE long-lived Worker with the same target and message lengths 0..6000 going up and down), pow2.nopassover (single worker: every earlier nonce re-scored); pow2.toint / pow2.statetoint / pow2.suff are answered a second time by the GENERATED code (gen.pow2.*)",
